@@ -85,6 +85,11 @@ CHECKS["C11"] = ("exploration",
   "Every circuit of the targeted programs, of families D/E/P (dedup on and off) and of a bounded builder request-sequence search (with repeated, constant and reordered output lists) is exported; the text is checked by the harness's own reader (declared counts, every non-input wire assigned once and before use, outputs are the last wires in order), evaluated from the text and re-imported, and must agree with the original circuit on every input (<= 10 input bits) or on a boundary set; circuits with an input wire as output must be refused. Every line/token/character perturbation of the small exports and every file of <= 3 lines over a 12-line alphabet must make the importer return Ok or Err - never panic, hang or abort (address space limited to 2 GiB).",
   "Circuits with more than 10 input bits are compared on a boundary input set.", "DESIGN.md §4 C11")
 
+CHECKS["C06"] = ("model_checking",
+  "deviation-bounded exhaustive exploration of hash-map iteration orders (environment answers owned by the harness through hook H2) on the real check + compile; bound 1 over all permutations of small maps, bound 2 over reversal/rotation pairs",
+  "Hash seeds cannot be enumerated, but everything a seed can influence is the order in which each map in each state is iterated. Hook H2 makes that order an environment answer: every (map identity, generation) that is iterated with >= 2 entries is a choice point. For every subject program the default run is recorded (and must reproduce exactly), then every single choice point is deviated with every permutation (<= 4 entries; reversal and rotations beyond) and pairs of choice points with reversal/rotation; the circuit (party sizes, gate list, output wires), the verdict and the set of errors must equal the default run's.",
+  "Over-approximates seeds (different maps and states are independent, as with std); a permutation of one map's entries is assumed realisable by some seed. Subjects are a fixed set of programs built to carry order-sensitive state (several constants/parties, structs, enums, functions, panic conditions shared by branches) plus examples and generated programs.", "DESIGN.md §4 C06")
+
 NOT_YET = {
 }
 
